@@ -26,6 +26,11 @@ CHECKS = {
         note="Trusted: Lean kernel + [propext, Classical.choice, Quot.sound]; extractor for Gen.Lz4; hand-written Model/Lz4.lean tied by finite differential runs under ASan; LP64 word size; liblz4 as reference. Not proved: functional equality with the block-format spec (lz4_sound/lz4_complete); whole-font shaping equality of compressed vs uncompressed fonts.",
         technique="Lean 4 invariant proof (in-bounds for all inputs) over a faithful word-copy model + differential ASan correspondence + liblz4 reference comparison",
         ref="§6 C14"),
+    "C18": dict(
+        text="Proof (Lean 4 kernel): on the model of the feature packing (FeatureRef constructor with its byte/short field widths, applyValToFeature with resize, getFeatureVal) - set succeeds iff v <= max (any 16-bit value when the feature has no settings), a failed set changes nothing, get-after-set returns the value, a set leaves every other feature unchanged (bit-level field lemmas by testBit extensionality); alloc_disjoint/loaded_isolated: every packing the loader accepts gives well-formed pairwise disjoint bit fields (the loader refuses tables needing more than 255 words - fix commit); history_refines: after ANY sequence of set operations every feature reads what a plain map feature->value holds; language lookups zero-pad the tag (padding chain REGENERATED, shared with C20) and unknown languages give the defaults. Byte-level Feat/Sill parsers, defaults, Sill overrides, clone and for_lang are tied to the code by histories of set/get/clone/for_lang/dump on a callback face with synthesised tables (v1/v2 layouts, widths around every power of two, 100-300 features, malformed tables) under ASan, compared with the model and with an abstract map reference.",
+        note="Trusted: Lean kernel + [propext, Classical.choice, Quot.sound]; hand-written Model/Feat.lean tied by finite differential runs; mask_over_val/bit_set_count modelled by meaning (needBits), validated for boundary (quick) / all (thorough) 16-bit maxima. Not covered: feature/setting labels from the name table (NameTable.cpp) and their three encodings; Sill parsing has no theorem of its own (correspondence only).",
+        technique="Lean 4 bit-field proofs + refinement of operation histories to an abstract map; differential histories on a callback face",
+        ref="§6 C18"),
     "C20": dict(
         text="Proof (Lean 4 kernel) that the model of gr_str_to_tag on a buffer ending at the NUL never reads outside it and returns the big-endian zero-padded tag for all byte values; that gr_tag_to_str stores exactly cells 0..3; round trip on four-character tags; the padding if-chain REGENERATED from gr_face.cpp/gr_segment.cpp zeroes trailing spaces for every tag, is idempotent, and the two source copies are equal. Model tied to the code by differential execution on exact-size heap buffers under ASan (all strings of length<=2 over 256 byte values, boundary bytes up to length 8, 4-byte and 8-byte output buffers).",
         note="Trusted: Lean kernel + [propext, Classical.choice, Quot.sound]; extractor for Gen.Pads; hand-written Model/Tag.lean tied only by finite differential runs; tag-taking entry points (lang/feature lookups) are covered with C18.",
